@@ -541,6 +541,15 @@ def o_subset(ctx, case):
         return 'get_data_subset live time %r, on-time inside the window is %r' % (float(ltsub.livetime), float(wantlt))
     if abs(float(sub.livetime) - float(ltsub.livetime)) > 1e-9 * tot:
         return 'DatasetData.livetime of the subset differs from the Livetime of the subset'
+    # the Livetime of the subset holds exactly on-time ∩ window (as a set), without rows of zero length the input does not have
+    rows = [tuple(r) for r in np.asarray(ltsub.uptime_mjd_intervals_arr).tolist()]
+    if merged(rows) != merged(ref_intersection(ivs, t0, t1)):
+        return 'get_data_subset window (%r,%r) on %r: the Livetime of the subset holds %r, on-time ∩ window is %r' % (
+            t0, t1, ivs, rows, [(float(a), float(b)) for a, b in merged(ref_intersection(ivs, t0, t1))])
+    zero_in = set(a for a, b in ivs if a == b)
+    for a, b in rows:
+        if a == b and a not in zero_in:
+            return 'get_data_subset window (%r,%r) on %r: the Livetime of the subset has the zero-length row [%r, %r)' % (t0, t1, ivs, a, b)
     return None
 
 
